@@ -98,8 +98,13 @@ fn tree_shape(src: &mut Src, st: &mut Stats, _env: &Env) -> CaseResult {
             return Ok(());
         }
     };
+    // failed compilations just before must leave nothing behind
+    let before = disturb(src, st);
     st.eval();
-    expect_shape("tree-shape", "ast-differs-from-constructed-tree", &text, &lower(&tree))?;
+    expect_shape("tree-shape", "ast-differs-from-constructed-tree", &text, &lower(&tree)).map_err(|mut f| {
+        f.case["preceded_by_failing_compiles"] = json!(before);
+        f
+    })?;
     record(st, &text);
     Ok(())
 }
@@ -206,6 +211,53 @@ fn mutant_sentences(src: &mut Src, st: &mut Stats, _env: &Env) -> CaseResult {
         record(st, &text);
     } else {
         st.class("not-a-sentence");
+        // a projection's right-hand side ends where the rules say: what is left over is an error
+        compare_accept("mutant-sentences", &text)?;
+    }
+    Ok(())
+}
+
+const ENUM_DOC: &str = "{\"a\":[{\"a\":[[1,2],[3]],\"b\":[1,2]},{\"a\":{\"a\":5},\"b\":[3]},[4,[5]]],\"x\":1}";
+
+/// Exhaustive small scope: every token sequence up to a length bound; the
+/// sentences among them must have the tree the rules give, the others are
+/// rejected.
+fn enumerate(env: &Env, st: &mut Stats) -> Vec<Failure> {
+    let thorough = env.tier == Tier::Thorough;
+    let mut plan: Vec<(&[&str], usize)> = vec![];
+    for l in 1..=(if thorough { 6 } else { 5 }) {
+        plan.push((ENUM_WIDE, l));
+    }
+    plan.push((ENUM_NARROW, 6));
+    if thorough {
+        plan.push((ENUM_NARROW, 7));
+    }
+    let docs = vec![(String::new(), ENUM_DOC.to_string())];
+    let mut fails = vec![];
+    for (alphabet, len) in plan {
+        let fs = enumerate_tokens(alphabet, len, 16, env, st, |text, local| {
+            if check_sentence("enumerate", text, &docs, local)? {
+                local.class("enumerate:sentence");
+                record(local, text);
+            } else {
+                compare_accept("enumerate", text)?;
+            }
+            Ok(())
+        });
+        fails.extend(fs);
+        if !fails.is_empty() {
+            break;
+        }
+    }
+    fails
+}
+
+fn replay_enumerated(case: &Value, _env: &Env) -> CaseResult {
+    let text = case["expression"].as_str().unwrap_or("");
+    let mut st = Stats::new();
+    let doc = case["document"].as_str().unwrap_or(ENUM_DOC).to_string();
+    if !check_sentence("enumerate", text, &[(String::new(), doc)], &mut st)? {
+        compare_accept("enumerate", text)?;
     }
     Ok(())
 }
@@ -296,6 +348,7 @@ pub fn property() -> Property {
         subs: vec![
             Sub::Custom(CustomSub { name: "corpus", run: corpus_all, replay: replay_text }),
             Sub::Custom(CustomSub { name: "repeats", run: repeats, replay: replay_repeat }),
+            Sub::Custom(CustomSub { name: "enumerate", run: enumerate, replay: replay_enumerated }),
             Sub::Bytes(BytesSub { name: "tree-shape", f: tree_shape, max_len: 1500, quick: Budget { threads: 8, cases: 3000 }, thorough: Budget { threads: 16, cases: 100_000 }, keep_unreproducible: false }),
             Sub::Bytes(BytesSub { name: "unparen", f: unparen, max_len: 1500, quick: Budget { threads: 8, cases: 4000 }, thorough: Budget { threads: 16, cases: 150_000 }, keep_unreproducible: false }),
             Sub::Custom(CustomSub { name: "fuzz-syntax_diff", run: fuzz_run, replay: fuzz_replay }),
